@@ -1,6 +1,7 @@
 package main
 
 import (
+	"regexp"
 	"fmt"
 	"go/types"
 	"sort"
@@ -220,6 +221,7 @@ type Script struct {
 	typeIDs    map[string]int
 	typeNames  []string
 	typeObjs   map[int]types.Type
+	qMarked    bool
 }
 
 type structSort struct {
@@ -424,6 +426,16 @@ func (s *Script) query(n int, extra []Term, wantModel bool) string {
 			}
 		}
 	}
+	// goal-directed instantiation: instances of quantified assumptions made for the skolem constants of OTHER goals
+	// are dropped at query time (see filterInstances): dropping conjuncts of an assumption only weakens it
+	goalSk := map[string]bool{}
+	for _, e := range extra {
+		for _, y := range s.symbolsOf(e.S) {
+			if strings.HasPrefix(y, "sk!") {
+				goalSk[y] = true
+			}
+		}
+	}
 	var b strings.Builder
 	b.WriteString("(set-option :produce-models true)\n(set-logic ALL)\n")
 	b.WriteString(prelude)
@@ -454,6 +466,9 @@ func (s *Script) query(n int, extra []Term, wantModel bool) string {
 			continue
 		}
 		b.WriteString("(assert ")
+		if strings.Contains(a, instMarker) {
+			a = filterInstances(a, goalSk)
+		}
 		b.WriteString(a)
 		b.WriteString(")\n")
 	}
@@ -502,4 +517,119 @@ func sortedKeys[V any](m map[string]V) []string {
 	}
 	sort.Strings(ks)
 	return ks
+}
+
+// instMarker tags the conjunction of instances a quantified assumption was expanded to: (and |@q| inst1 inst2 ...).
+// |@q| is a Bool constant asserted true.
+const instMarker = "(and |@q| "
+
+var skRe = regexp.MustCompile(`sk![0-9]+`)
+
+// filterInstances removes, from every marked conjunction in a, the instances that mention a skolem constant which does not
+// occur in the goal (they were made for other goals). Marked conjunctions only occur where dropping a conjunct weakens an
+// assumption, so the result is implied by a.
+func filterInstances(a string, goalSk map[string]bool) string {
+	var out strings.Builder
+	i := 0
+	for i < len(a) {
+		j := strings.Index(a[i:], instMarker)
+		if j < 0 {
+			out.WriteString(a[i:])
+			break
+		}
+		out.WriteString(a[i : i+j])
+		k := i + j + len(instMarker)
+		out.WriteString(instMarker)
+		// children until the matching close paren
+		for k < len(a) {
+			for k < len(a) && (a[k] == ' ' || a[k] == '\n') {
+				k++
+			}
+			if k >= len(a) || a[k] == ')' {
+				break
+			}
+			start := k
+			k = skipSexp(a, k)
+			child := a[start:k]
+			if strings.Contains(child, instMarker) {
+				child = filterInstances(child, goalSk) // inner quantifier first
+			}
+			foreign := false
+			for _, m := range skRe.FindAllString(child, -1) {
+				if !goalSk[m] {
+					foreign = true
+					break
+				}
+			}
+			if foreign {
+				continue
+			}
+			out.WriteString(child)
+			out.WriteByte(' ')
+		}
+		out.WriteString("true")
+		i = k
+	}
+	return out.String()
+}
+
+// skipSexp returns the index just after the s-expression starting at a[k].
+func skipSexp(a string, k int) int {
+	switch a[k] {
+	case '(':
+		depth := 0
+		for k < len(a) {
+			switch a[k] {
+			case '(':
+				depth++
+			case ')':
+				depth--
+				if depth == 0 {
+					return k + 1
+				}
+			case '"':
+				k++
+				for k < len(a) {
+					if a[k] == '"' {
+						if k+1 < len(a) && a[k+1] == '"' {
+							k += 2
+							continue
+						}
+						break
+					}
+					k++
+				}
+			case '|':
+				k++
+				for k < len(a) && a[k] != '|' {
+					k++
+				}
+			}
+			k++
+		}
+		return k
+	case '"':
+		k++
+		for k < len(a) {
+			if a[k] == '"' {
+				if k+1 < len(a) && a[k+1] == '"' {
+					k += 2
+					continue
+				}
+				return k + 1
+			}
+			k++
+		}
+		return k
+	case '|':
+		k++
+		for k < len(a) && a[k] != '|' {
+			k++
+		}
+		return k + 1
+	}
+	for k < len(a) && a[k] != ' ' && a[k] != ')' && a[k] != '\n' {
+		k++
+	}
+	return k
 }
